@@ -42,21 +42,9 @@ def lt_edges(cfg, want=True):
     return cfg.bool_edges(pred, want)
 
 
-def run(ck, facts, tier):
-    cg = CallGraph(facts, ["chalk_solve", "chalk_engine", "chalk_recursive", "chalk_integration"])
-    R = "C14.BIND-SITES"
-    ck.rule(R, "K4: inference variables are bound (ena unify_var_value) only in the audited functions; a new binding site must be "
-               "added to the table with its justification")
-    sites = cg.callers_of(lambda k: k == BIND)
-    ck.floor(R, "unify_var_value-sites", len(sites), 5)
-    for k, blk, t in sites:
-        if k in BIND_TABLE:
-            ck.ok(R, short(k), BIND_TABLE[k])
-        else:
-            ck.violation(R, short(k), cg.bodies[k].where(t.get("ln")), "new variable-binding site outside the audited table "
-                         "(is the value occurs-checked and universe-checked?)")
-
-    R = "C14.OCCURS"
+def occurs_before_bind(ck, facts, R):
+    """Shared with C28: the occurs check is also where a binding's universes are checked (a placeholder the variable cannot name is
+    rejected, a younger variable is promoted) - a binding that bypasses it can put an unnameable universe into a solution."""
     ck.rule(R, "K3: in relate_var_ty and unify_var_const the binding is dominated by OccursCheck::new(self, var, universe_of_unbound_var(var)), "
                "by try_fold_with of the value, and by the success edge of that fold's `?`; the bound value derives from the fold result")
     for fn, valfn in ((UNI + "::relate_var_ty", "from_ty"), (UNI + "::unify_var_const", "from_const")):
@@ -108,6 +96,24 @@ def run(ck, facts, tier):
             ck.ok(R, name + ":binds-checked-value", "value derives from the occurs-checked fold result")
         else:
             ck.violation(R, name + ":binds-checked-value", b.where(), "the value bound is not derived from the occurs-checked fold result")
+
+
+
+def run(ck, facts, tier):
+    cg = CallGraph(facts, ["chalk_solve", "chalk_engine", "chalk_recursive", "chalk_integration"])
+    R = "C14.BIND-SITES"
+    ck.rule(R, "K4: inference variables are bound (ena unify_var_value) only in the audited functions; a new binding site must be "
+               "added to the table with its justification")
+    sites = cg.callers_of(lambda k: k == BIND)
+    ck.floor(R, "unify_var_value-sites", len(sites), 5)
+    for k, blk, t in sites:
+        if k in BIND_TABLE:
+            ck.ok(R, short(k), BIND_TABLE[k])
+        else:
+            ck.violation(R, short(k), cg.bodies[k].where(t.get("ln")), "new variable-binding site outside the audited table "
+                         "(is the value occurs-checked and universe-checked?)")
+
+    occurs_before_bind(ck, facts, "C14.OCCURS")
 
     R = "C14.PROMOTE"
     ck.rule(R, "K3: OccursCheck's three inference-variable callbacks bind only `Unbound(self.universe_index)` and only on the "
